@@ -83,7 +83,7 @@ def parseIn (toks : List String) : Option In :=
       let idx ← int "i"
       -- a negative part index is rejected by AddPart like an index beyond the total
       let idx : Nat := if idx < 0 then 1000000000 else idx.toNat
-      some (.part (← nat "h") (← nat "r") (← nat "pv") idx (← bool "vok") (← bool "cok"))
+      some (.part (← nat "h") (← nat "r") (← nat "pv") idx (← bool "vok") (← bool "cok") (← bool "dec"))
   | some "vote" => do
       some (.vote (← nat "t") (← nat "h") (← nat "r") (← nat "idx") (← nat "v") (← nat "tot") (← nat "src") (← bool "ok"))
   | some "timeout" => do some (.timeout (← nat "h") (← nat "r") (← nat "st"))
